@@ -454,6 +454,12 @@ def literal_rendering(ctx):
         outs = Interp(idx).explore(lambda i: i.call_function(fr, [], self_obj=AObj("Number", {"value": val, "value_type": mk_vt("t", signed, Sym("W"))}, label="self")))
         obs = {normalise(outcome_text(o)) for o in outs}
         ctx.check(f"literal rendering [{'s' if signed else 'u'}, {val}]", obs == {exp}, exp, str(sorted(obs)), fn_where(idx, fr))
+    # narrow literals (the 1 / 0 of a truth value converted to an 8 or 16 bit type) are printed at their own width
+    for signed, w, val in ((True, 8, 1), (False, 8, 0), (False, 16, 1), (True, 16, 0), (False, 1, 1), (True, 64, 1)):
+        outs = Interp(idx).explore(lambda i: i.call_function(fr, [], self_obj=AObj("Number", {"value": val, "value_type": mk_vt("t", signed, w)}, label="self")))
+        obs = {normalise(outcome_text(o)) for o in outs}
+        exp = f"{'SN' if signed else 'UN'}({w}, {val})"
+        ctx.check(f"literal rendering [{'s' if signed else 'u'}{w}, {val}]", obs == {exp}, exp, str(sorted(obs)), fn_where(idx, fr))
     fo = idx.func("ValueType.il_op")
     for signed in (True, False):
         outs = Interp(idx).explore(lambda i: i.call_function(fo, [255], self_obj=mk_vt("t", signed, Sym("W"))))
